@@ -373,7 +373,7 @@ func lookups(c *engine.Ctx, r *rand.Rand, evals *int64) {
 		}
 		kt := keytab.New()
 		if err := kt.Unmarshal(keytabfmt.Write(2, items)); err != nil {
-			engine.Fatal("lookup keytab does not load: %v", err)
+			engine.FailValid("keytab.Unmarshal(lookup keytab)", err)
 		}
 		for _, q := range qs {
 			*evals++
